@@ -18,11 +18,8 @@ from harness.props import c05
 
 
 def snapshot(arch):
-    try:
-        nx = arch._graph._graph
-        return (tuple(arch.modules), tuple(sorted((a, b, bool(d.get("inherits"))) for a, b, d in nx.edges(data=True))))
-    except AttributeError:
-        return (tuple(arch.modules),)
+    nx = rules.nx_of(arch)
+    return (tuple(arch.modules), tuple(sorted((a, b, rules.is_hierarchy_pair(a, b)) for a, b in nx.edges())))
 
 
 def _history_job(args):
